@@ -931,7 +931,13 @@ func (vc *VC) chanCount(name string, ch Term, cond Term, st *State) {
 // chanLast records the last value sent on ch in the ghost map chlast (if
 // declared), for reference-like (integer-sorted) element values.
 func (vc *VC) chanLast(ch, v Term, cond Term, st *State) {
-	g := vc.specs.ghost("chlast")
+	vc.chanLastNamed("chlast", ch, v, cond, st)
+}
+
+// chanLastNamed: chlast[ch] is the last value sent on ch, chlastrecv[ch] the
+// last value successfully received from ch, by the verified function.
+func (vc *VC) chanLastNamed(name string, ch, v Term, cond Term, st *State) {
+	g := vc.specs.ghost(name)
 	if g == nil || !g.IsMap || ch.Sort != SInt || v.Sort != SInt {
 		return
 	}
@@ -948,10 +954,12 @@ func (fr *Frame) recv(in *ssa.UnOp, st *State, pc Term) {
 		okT := vc.fresh("recvok", SBool)
 		fr.tuples[in] = []Term{ite(okT, v, vc.zero(elem)), okT}
 		vc.chanCount("chrecvs", fr.val(in.X), okT, st)
+		vc.chanLastNamed("chlastrecv", fr.val(in.X), v, okT, st)
 		return
 	}
 	fr.vals[in] = v
 	vc.chanCount("chrecvs", fr.val(in.X), tTrue, st)
+	vc.chanLastNamed("chlastrecv", fr.val(in.X), v, tTrue, st)
 }
 
 func (fr *Frame) selectOp(in *ssa.Select, st *State, pc Term) {
@@ -970,6 +978,7 @@ func (fr *Frame) selectOp(in *ssa.Select, st *State, pc Term) {
 			v := fr.freshTyped("selrecv", elem, st, pc)
 			vc.chanRecvAssume(fr, s.Chan, v, st, and(pc, eq(idx, intLit(int64(i)))))
 			vc.chanCount("chrecvs", fr.val(s.Chan), and(eq(idx, intLit(int64(i))), okT), st)
+			vc.chanLastNamed("chlastrecv", fr.val(s.Chan), v, and(eq(idx, intLit(int64(i))), okT), st)
 			res = append(res, v)
 		} else {
 			vc.chanSendObligation(fr, s.Chan, fr.val(s.Send), st, and(pc, eq(idx, intLit(int64(i)))))
